@@ -1586,3 +1586,74 @@ def z3_timeout_type(rep, ex: Explorer):
             rep.check(t != "float", "TIMEOUT.int", where, "timeout parameter", "the timeout handed to z3 is an integer number of milliseconds (z3 rejects a float with an exception that is not an expiry)",
                       extracted=f"`{ast.unparse(arg)[:80]}` can be a float" if t == "float" else f"`{ast.unparse(arg)[:80]}`: {t}", required="int", function=f"{fi.path}:{fi.qualname[len(fi.module) + 1:]}")
     rep.floor("z3 timeout parameters set", n, 2)
+
+
+def state_slots(rep, ex: Explorer):
+    """STATE.slots (by evaluation): the epistemic state `create_epistemic_state` hands out describes what the caller passed:
+    the base is the caller's base with every one of its conditionals (the same object, or a base over the same / a copied
+    mapping - never a selection of them), operator name, back-ends and mode sit in their own slots, and nothing is marked as
+    preprocessed yet."""
+    from ..absint import Interp
+
+    prog = ex.prog
+    qual = "inference.inference_manager.create_epistemic_state"
+    fi = prog.functions.get(qual)
+    if fi is None:
+        raise AnalysisError("create_epistemic_state not found")
+    site = fn_label(prog, qual)
+    a = fi.node.args
+    names = [x.arg for x in a.posonlyargs + a.args]
+    held = {}
+
+    def setup(I):
+        bb = make_belief_base(I)
+        held["bb"] = bb
+        held["conds"] = I.deref(bb).attrs["conditionals"]
+        vals = []
+        for nm in names:
+            vals.append(bb if nm == "belief_base" else Sym(("arg", nm)))
+        return vals, {}
+
+    I_ = Interp(prog)
+    paths = I_.explore(qual, setup)
+    if ex.report is not None:
+        ex.report.absorb_stats(I_)
+    n = 0
+    for p in paths:
+        if p.outcome[0] != "return":
+            continue
+        rv = p.outcome[1]
+        d = p.state.heap.get(rv.oid) if isinstance(rv, Ref) else None
+        if not (isinstance(d, HDict) and not d.each and not d.sym):
+            raise AnalysisError(f"{site}: does not return a mapping with literal slots")
+        n += 1
+        case = "; ".join(f"{show_pred(k)[:50]}={v}" for k, v in p.decisions[:3])
+        got = d.entries.get("belief_base")
+        same = isinstance(got, Ref) and got.oid == held["bb"].oid
+        if not same:
+            o = p.state.heap.get(got.oid) if isinstance(got, Ref) else None
+            cd = o.attrs.get("conditionals") if isinstance(o, HObj) else None
+            cdo = p.state.heap.get(cd.oid) if isinstance(cd, Ref) else None
+            src = p.state.heap.get(held["conds"].oid)
+            if isinstance(cd, Ref) and cd.oid == held["conds"].oid:
+                same = True
+            elif isinstance(cdo, HDict) and not cdo.entries and not cdo.sym and len(cdo.each) == 1 and len(src.each) == 1:
+                e, e0 = cdo.each[0], src.each[0]
+                if e[2] == e0[2] and e[3] == PTRUE:
+                    same = True
+                elif e[2] == e0[2]:
+                    rep.violation("STATE.slots", site, "belief base" + (f" [{case}]" if case else ""), "the operators reason about the caller's base: every conditional of it is in the state's base",
+                                  extracted=f"only the conditionals with {show_pred(e[3])[:140]} are kept", required="all conditionals of the base passed", function=site)
+                    continue
+            if not same:
+                raise AnalysisError(f"{site}: the base stored in the state ({got!r}) cannot be related to the base passed")
+        rep.ok("STATE.slots", site, "belief base" + (f" [{case}]" if case else ""), "the operators reason about the caller's base: every conditional of it is in the state's base")
+        for nm in names:
+            if nm == "belief_base":
+                continue
+            v = d.entries.get(nm)
+            rep.check(isinstance(v, Sym) and v.label == ("arg", nm), "STATE.slots", site, f"slot {nm}", "every argument sits in the slot of its name", extracted=repr(v)[:80], required=f"the argument {nm}", function=site)
+        for nm in ("preprocessing_done", "preprocessing_timed_out"):
+            v = d.entries.get(nm)
+            rep.check(isinstance(v, Const) and v.value is False, "STATE.slots", site, f"slot {nm}", "a new state is not preprocessed", extracted=repr(v)[:40], required="False", function=site)
+    rep.floor("create_epistemic_state returning paths", n, 1)
